@@ -42,6 +42,22 @@ Theorem ble_reassemble_encrypted : forall seal open,
       /\ forall k, (forall n m, length (seal n m) = length m + k) -> Forall (fun w => length w <= fs + k) ws.
 Proof. exact ble_write_ok. Qed.
 
+(* the negotiated size on a connection: with ATT budget B = mtu - 3 (or the backend's larger
+   max_write_without_response_size) every GATT write - plain, or sealed with a 16-byte tag
+   inside a secure session - is at most B and the accessory recovers the request.  The size is
+   a function of (mtu, mwwr, session?) only: no dependence on earlier requests. *)
+Theorem ble_negotiated_size : forall seal open,
+    (forall n m, open n (seal n m) = Some m) -> (forall n m, length (seal n m) = length m + 16) ->
+    forall (enc : bool) mtu mwwr op tid iid data ctr,
+    24 <= att_budget mtu mwwr ->
+    (op < 256)%N -> (tid < 256)%N -> (iid < 65536)%N -> (N.of_nat (length data) < 65536)%N ->
+    exists ws frs,
+      ble_session_write seal enc ctr mtu mwwr op tid iid data = Ok (ws, (ctr + N.of_nat (length ws))%N)
+      /\ Forall (fun w => length w <= att_budget mtu mwwr) ws
+      /\ open_seq (if enc then open else open_plain) ctr ws = Some frs
+      /\ acc_reassemble frs = Some (op, tid, iid, data).
+Proof. exact ble_session_fits. Qed.
+
 (* fields that do not fit the wire format make struct.pack raise before anything is written *)
 Theorem ble_out_of_range : forall fs op tid iid data,
     (65536 <= iid)%N \/ (256 <= tid)%N \/ (256 <= op)%N \/ (65536 <= N.of_nat (length data))%N ->
@@ -126,6 +142,18 @@ Theorem coap_request_tids : forall op l,
       /\ forall i e, nth_error l i = Some e ->
            nth_error (expect_from op 0 l) i = Some (op, N.of_nat i, fst e, snd e).
 Proof. exact coap_request_tids_l. Qed.
+
+(* a write batch is sent completely or not at all: if anything goes on the wire, every
+   requested (aid, iid) was found and the bytes are encode_all over ALL positions (so
+   coap_request_tids applies); one unknown characteristic aborts before anything is sent *)
+Theorem coap_write_all_or_nothing : forall known op iids values d,
+    coap_write_batch known op iids values = Ok d ->
+    forallb (fun b => b) known = true /\ coap_encode_all op iids values = Ok d.
+Proof. exact coap_write_batch_sent. Qed.
+
+Theorem coap_write_unknown_aborts : forall known op iids values,
+    forallb (fun b => b) known = false -> coap_write_batch known op iids values = Crash.
+Proof. exact coap_write_batch_unknown. Qed.
 
 (* response: for EVERY batch of n >= 1 items and EVERY outcome vector - each item any
    control byte, any tid (right or wrong), any status 0..6, any body - the result has
@@ -212,6 +240,7 @@ Proof. cbv zeta. split; vm_compute; reflexivity. Qed.
 Print Assumptions ble_frag_size.
 Print Assumptions ble_reassemble.
 Print Assumptions ble_reassemble_encrypted.
+Print Assumptions ble_negotiated_size.
 Print Assumptions ble_out_of_range.
 Print Assumptions ble_response_any_fragmentation.
 Print Assumptions ble_response_any_fragmentation_plain.
@@ -221,6 +250,8 @@ Print Assumptions ble_reject_bad_tid.
 Print Assumptions ble_reject_missing_flag.
 Print Assumptions ble_reject_bad_seal.
 Print Assumptions coap_request_tids.
+Print Assumptions coap_write_all_or_nothing.
+Print Assumptions coap_write_unknown_aborts.
 Print Assumptions coap_batch_aligned.
 Print Assumptions coap_decode_total.
 Print Assumptions coap_result_keys.
